@@ -1281,12 +1281,12 @@ int main(int argc, char **argv) {
         // does promise_extra_storage::alloc give the block back to its base policy when the factory throws?
         traced<cocls::promise_extra_storage<Extra, cocls::default_storage>> st([]() -> Extra { throw FactoryError(); });
         arena::reset();
-        bool thrown = false;
+        int thrown = 0;
         {
             lib_scope ls;
-            try { st.alloc(100); } catch (const FactoryError &) { thrown = true; }
+            try { st.alloc(100); } catch (const FactoryError &) { thrown = 1; } catch (...) { thrown = 2; }
         }
-        printf("THROW %s\n", !thrown ? "lost" : arena::used() == 0 ? "released" : "kept");
+        printf("THROW %s\n", thrown == 0 ? "lost" : thrown == 2 ? "replaced" : arena::used() == 0 ? "released" : "kept");
         return 0;
     }
     if (argc > 1 && !strcmp(argv[1], "--sizes")) {
